@@ -1,224 +1,92 @@
 // K2 harnesses over the real src/react/react_cache.rs (child module: private items visible).
+//
+// Style (DESIGN.md 2.3, k2 recipe): the pre-state (registration tables, the target's EntityReactors, the world)
+// is written DIRECTLY into the real structs with a concrete shape and symbolic contents (reactor ids, payloads,
+// liveness); then exactly ONE real function is called; the `ReactionCommand`s it queues are captured typed and
+// compared with a shadow model.  One query per shape: the set of shapes is the stated bound.
 use bevy::ecs::system::{Res, ResMut};
 use bevy::world::{CommandQueue, CmdMode};
+use smallvec::SmallVec;
 
 pub struct EvA(pub u8);
 pub struct EvB(pub u8);
+pub struct CoA(pub u8);
+impl ReactComponent for CoA {}
+pub struct CoB(pub u8);
+impl ReactComponent for CoB {}
+pub struct RsA(pub u8);
+impl ReactResource for RsA {}
+pub struct RsB(pub u8);
+impl ReactResource for RsB {}
 
-fn persistent(i: u8) -> ReactorHandle { ReactorHandle::Persistent(SystemCommand(ent(i as u32))) }
+pub const NSYS: u8 = 4;
+pub fn sysc(i: u8) -> SystemCommand { SystemCommand(ent(10 + i as u32)) }
+pub fn persistent(i: u8) -> ReactorHandle { ReactorHandle::Persistent(sysc(i)) }
 
-/// Registers `n` broadcast reactors with symbolic keys (EvA / EvB) and symbolic reactor ids (< 3) through the real
-/// register function; returns the shadow table.
-fn build_broadcast_table(cache: &mut ReactCache, n: usize, shadow: &mut [(bool, u8); 4], shape: Option<[bool; 3]>)
+/// a list of `k` handles with symbolic reactor ids (recorded in `ids[off..off+k]`)
+pub fn handle_list(k: usize, ids: &mut [u8; 8], off: usize) -> Vec<ReactorHandle>
 {
+    let mut v: Vec<ReactorHandle> = Vec::with_capacity(4);
     let mut i = 0;
-    while i < n
+    while i < k { let id = any_below(NSYS); ids[off + i] = id; v.push(persistent(id)); i += 1; }
+    v
+}
+
+/// writes `entries` into a model map directly (no lookups): keys must be distinct
+pub fn put2<K: Eq, V>(map: &mut bevy::utils::HashMap<K, V>, a: Option<(K, V)>, b: Option<(K, V)>)
+{
+    let mut n = 0;
+    if let Some(e) = a { unsafe { core::ptr::write(&mut map.m_entries[n], Some(e)); } n += 1; }
+    if let Some(e) = b { unsafe { core::ptr::write(&mut map.m_entries[n], Some(e)); } n += 1; }
+    map.m_len = n;
+}
+
+fn opt_list<K>(key: K, k: usize, ids: &mut [u8; 8], off: usize) -> Option<(K, Vec<ReactorHandle>)>
+{
+    if k == 0 { None } else { Some((key, handle_list(k, ids, off))) }
+}
+
+/// an EntityReactors table with the given concrete reaction types and symbolic reactor ids (`ids[off..]`)
+pub fn entity_table(rtypes: &[EntityReactionType], ids: &mut [u8; 8], off: usize) -> EntityReactors
+{
+    let mut t = EntityReactors::default();
+    let mut i = 0;
+    while i < rtypes.len()
     {
-        let is_a: bool = match shape { Some(s) => s[i], None => kani::any() };
-        let id = any_below(3);
-        if is_a { cache.register_broadcast_reactor::<EvA>(persistent(id)); }
-        else { cache.register_broadcast_reactor::<EvB>(persistent(id)); }
-        shadow[i] = (is_a, id);
+        let id = any_below(NSYS);
+        ids[off + i] = id;
+        t.insert(rtypes[i], persistent(id));
         i += 1;
     }
+    t
 }
 
-#[kani::proof]
-#[kani::stub(core::any::TypeId::of, crate::vh::stub_typeid_of)]
-#[kani::stub(<core::any::TypeId as crate::vh::PEq>::eq, crate::vh::stub_typeid_eq)]
-#[kani::unwind(5)]
-fn rc_broadcast_dispatch_exact() { broadcast_dispatch(None, None) }
+fn capture_start(world: &mut World, buf: &mut Vec<ReactionCommand>)
+{
+    world.m_capture(buf);
+    world.m_set_cmd_mode(CmdMode::Immediate);
+}
 
-#[kani::proof]
-#[kani::stub(core::any::TypeId::of, crate::vh::stub_typeid_of)]
-#[kani::stub(<core::any::TypeId as crate::vh::PEq>::eq, crate::vh::stub_typeid_eq)]
-#[kani::unwind(5)]
-fn rc_broadcast_dispatch_aba() { broadcast_dispatch(Some(3), Some([true, false, true])) }
+//-------------------------------------------------------------------------------------------------------------------
+// broadcast (C01, C05)
+//-------------------------------------------------------------------------------------------------------------------
 
-fn broadcast_dispatch(n_fixed: Option<usize>, shape: Option<[bool; 3]>)
+fn broadcast_dispatch(ka: usize, kb: usize)
 {
     let mut world = World::new();
     let mut cache = ReactCache::default();
-    let n: usize = match n_fixed { Some(n) => n, None => kani::any() };
-    kani::assume(n <= 3);
-    let mut shadow = [(false, 0u8); 4];
-    build_broadcast_table(&mut cache, n, &mut shadow, shape);
-
-    // reaction commands are captured typed (not applied); the spawn-insert command is applied at once
+    let mut ids = [0u8; 8];
+    let a = opt_list(TypeId::of::<EvA>(), ka, &mut ids, 0);
+    let b = opt_list(TypeId::of::<EvB>(), kb, &mut ids, 4);
+    put2(&mut cache.broadcast_reactors, a, b);
     let mut captured: Vec<ReactionCommand> = Vec::with_capacity(4);
-    world.m_capture(&mut captured);
-    world.m_set_cmd_mode(CmdMode::Immediate);
+    capture_start(&mut world, &mut captured);
+    let wp = &mut world as *mut World;
 
     let payload: u8 = kani::any();
-    ReactCache::schedule_broadcast_reaction::<EvA>(In(EvA(payload)), Res::m_new(&cache), world.commands());
-    world.flush_entities();
+    ReactCache::schedule_broadcast_reaction::<EvA>(In(EvA(payload)), Res::m_new(&cache), cmds(wp));
 
-    // expected: one ReactionCommand::BroadcastEvent per EvA registration, in registration order
-    let mut expected = 0usize;
-    let mut i = 0;
-    while i < n { if shadow[i].0 { expected += 1; } i += 1; }
-
-    assert!(captured.len() == expected, "exactly one reaction per matching registration");
-    if expected == 0
-    {
-        assert!(world.m_queued() == 0, "no listener: nothing queued");
-        assert!(world.m_nslots == 0, "no listener: no data entity reserved");
-    }
-    else
-    {
-        assert!(world.m_queued() == expected + 1, "one spawn-insert command + one reaction command per listener");
-        let mut k = 0;
-        let mut data: Option<Entity> = None;
-        let mut i = 0;
-        while i < n
-        {
-            if shadow[i].0
-            {
-                match &captured[k]
-                {
-                    ReactionCommand::BroadcastEvent{ data_entity, reactor } =>
-                    {
-                        assert!(*reactor == SystemCommand(ent(shadow[i].1 as u32)), "listener order = registration order");
-                        if let Some(d) = data { assert!(d == *data_entity, "all reactions share one data entity"); }
-                        data = Some(*data_entity);
-                    }
-                    _ => panic!("wrong reaction kind"),
-                }
-                k += 1;
-            }
-            i += 1;
-        }
-        let d = data.unwrap();
-        assert!(crate::react::commands::verif_h::counter_value(world.get::<DataEntityCounter>(d).unwrap()) == expected, "reader count = number of queued reactions");
-        assert!(crate::react::event_readers::verif_h::broadcast_payload(world.get::<BroadcastEventData<EvA>>(d).unwrap()).0 == payload, "payload stored on the data entity");
-        kani::cover!(expected == 2, "two listeners of three registrations");
-    }
-    kani::cover!(expected == 0 && n == 3, "three registrations, none matching");
-    std::mem::forget(captured);
-    std::mem::forget(world);
-    std::mem::forget(cache);
-}
-
-#[kani::proof]
-#[kani::stub(core::any::TypeId::of, crate::vh::stub_typeid_of)]
-#[kani::stub(<core::any::TypeId as crate::vh::PEq>::eq, crate::vh::stub_typeid_eq)] #[kani::unwind(5)]
-fn p1_default() { let cache = ReactCache::default(); assert!(cache.broadcast_reactors.len() == 0); std::mem::forget(cache); }
-#[kani::proof]
-#[kani::stub(core::any::TypeId::of, crate::vh::stub_typeid_of)]
-#[kani::stub(<core::any::TypeId as crate::vh::PEq>::eq, crate::vh::stub_typeid_eq)] #[kani::unwind(5)]
-fn p2_reg1() { let mut cache = ReactCache::default(); cache.register_broadcast_reactor::<EvA>(persistent(any_below(3))); assert!(cache.broadcast_reactors.len() == 1); std::mem::forget(cache); }
-#[kani::proof]
-#[kani::stub(core::any::TypeId::of, crate::vh::stub_typeid_of)]
-#[kani::stub(<core::any::TypeId as crate::vh::PEq>::eq, crate::vh::stub_typeid_eq)] #[kani::unwind(5)]
-fn p3_reg3() {
-    let mut cache = ReactCache::default();
-    cache.register_broadcast_reactor::<EvA>(persistent(any_below(3)));
-    cache.register_broadcast_reactor::<EvB>(persistent(any_below(3)));
-    cache.register_broadcast_reactor::<EvA>(persistent(any_below(3)));
-    assert!(cache.broadcast_reactors.len() == 2); std::mem::forget(cache);
-}
-#[kani::proof]
-#[kani::stub(core::any::TypeId::of, crate::vh::stub_typeid_of)]
-#[kani::stub(<core::any::TypeId as crate::vh::PEq>::eq, crate::vh::stub_typeid_eq)] #[kani::unwind(5)]
-fn p4_sched() {
-    let mut world = World::new();
-    let mut cache = ReactCache::default();
-    cache.register_broadcast_reactor::<EvA>(persistent(any_below(3)));
-    cache.register_broadcast_reactor::<EvB>(persistent(any_below(3)));
-    cache.register_broadcast_reactor::<EvA>(persistent(any_below(3)));
-    let mut captured: Vec<ReactionCommand> = Vec::with_capacity(4);
-    world.m_capture(&mut captured);
-    world.m_set_cmd_mode(CmdMode::Immediate);
-    ReactCache::schedule_broadcast_reaction::<EvA>(In(EvA(1)), Res::m_new(&cache), world.commands());
-    assert!(captured.len() == 2);
-    std::mem::forget(captured); std::mem::forget(world); std::mem::forget(cache);
-}
-
-fn sched_probe(regs: usize, capture: bool, immediate: bool)
-{
-    let mut world = World::new();
-    let mut cache = ReactCache::default();
-    if regs >= 1 { cache.register_broadcast_reactor::<EvA>(persistent(any_below(3))); }
-    if regs >= 2 { cache.register_broadcast_reactor::<EvA>(persistent(any_below(3))); }
-    let mut captured: Vec<ReactionCommand> = Vec::with_capacity(4);
-    if capture { world.m_capture(&mut captured); }
-    if immediate { world.m_set_cmd_mode(CmdMode::Immediate); }
-    ReactCache::schedule_broadcast_reaction::<EvA>(In(EvA(1)), Res::m_new(&cache), world.commands());
-    if capture { assert!(captured.len() == regs); } else { assert!(world.m_queued() == if regs == 0 { 0 } else { regs + 1 }); }
-    std::mem::forget(captured); std::mem::forget(world); std::mem::forget(cache);
-}
-#[kani::proof]
-#[kani::stub(core::any::TypeId::of, crate::vh::stub_typeid_of)]
-#[kani::stub(<core::any::TypeId as crate::vh::PEq>::eq, crate::vh::stub_typeid_eq)] #[kani::unwind(5)] fn q0() { sched_probe(0, true, true) }
-#[kani::proof]
-#[kani::stub(core::any::TypeId::of, crate::vh::stub_typeid_of)]
-#[kani::stub(<core::any::TypeId as crate::vh::PEq>::eq, crate::vh::stub_typeid_eq)] #[kani::unwind(5)] fn q1() { sched_probe(1, true, true) }
-#[kani::proof]
-#[kani::stub(core::any::TypeId::of, crate::vh::stub_typeid_of)]
-#[kani::stub(<core::any::TypeId as crate::vh::PEq>::eq, crate::vh::stub_typeid_eq)] #[kani::unwind(5)] fn q1_rec() { sched_probe(1, false, false) }
-#[kani::proof]
-#[kani::stub(core::any::TypeId::of, crate::vh::stub_typeid_of)]
-#[kani::stub(<core::any::TypeId as crate::vh::PEq>::eq, crate::vh::stub_typeid_eq)] #[kani::unwind(5)] fn q1_cap_rec() { sched_probe(1, true, false) }
-#[kani::proof]
-#[kani::stub(core::any::TypeId::of, crate::vh::stub_typeid_of)]
-#[kani::stub(<core::any::TypeId as crate::vh::PEq>::eq, crate::vh::stub_typeid_eq)] #[kani::unwind(5)] fn q2() { sched_probe(2, true, true) }
-
-#[kani::proof]
-#[kani::stub(core::any::TypeId::of, crate::vh::stub_typeid_of)]
-#[kani::stub(<core::any::TypeId as crate::vh::PEq>::eq, crate::vh::stub_typeid_eq)] #[kani::unwind(5)]
-fn r1_handles() {
-    let mut v: Vec<ReactorHandle> = Vec::new();
-    let id = any_below(3);
-    v.push(persistent(id));
-    for h in v.iter() { assert!(h.sys_command() == SystemCommand(ent(id as u32))); }
-    std::mem::forget(v);
-}
-#[kani::proof]
-#[kani::stub(core::any::TypeId::of, crate::vh::stub_typeid_of)]
-#[kani::stub(<core::any::TypeId as crate::vh::PEq>::eq, crate::vh::stub_typeid_eq)] #[kani::unwind(5)]
-fn r2_spawn_cmd() {
-    let mut world = World::new();
-    let e = world.commands().spawn((DataEntityCounter::new(1), BroadcastEventData::new(EvA(1)))).id();
-    assert!(world.m_queued() == 1);
-    std::mem::forget(world);
-}
-#[kani::proof]
-#[kani::stub(core::any::TypeId::of, crate::vh::stub_typeid_of)]
-#[kani::stub(<core::any::TypeId as crate::vh::PEq>::eq, crate::vh::stub_typeid_eq)] #[kani::unwind(5)]
-fn r3_queue_reaction() {
-    let mut world = World::new();
-    world.commands().queue(ReactionCommand::BroadcastEvent{ data_entity: ent(1), reactor: SystemCommand(ent(2)) });
-    assert!(world.m_queued() == 1);
-    std::mem::forget(world);
-}
-
-/// pre-state built directly (no real-function calls): two keys with `ka` / `kb` listeners, symbolic reactor ids
-fn direct_table(cache: &mut ReactCache, ka: usize, kb: usize, ids: &mut [u8; 6])
-{
-    let mut va: Vec<ReactorHandle> = Vec::with_capacity(4);
-    let mut vb: Vec<ReactorHandle> = Vec::with_capacity(4);
-    let mut i = 0;
-    while i < ka { let id = any_below(3); ids[i] = id; va.push(persistent(id)); i += 1; }
-    let mut j = 0;
-    while j < kb { let id = any_below(3); ids[3 + j] = id; vb.push(persistent(id)); j += 1; }
-    let mut n = 0;
-    if ka > 0 { unsafe { core::ptr::write(&mut cache.broadcast_reactors.m_entries[n], Some((TypeId::of::<EvA>(), va))); } n += 1; } else { std::mem::forget(va); }
-    if kb > 0 { unsafe { core::ptr::write(&mut cache.broadcast_reactors.m_entries[n], Some((TypeId::of::<EvB>(), vb))); } n += 1; } else { std::mem::forget(vb); }
-    cache.broadcast_reactors.m_len = n;
-}
-
-fn sched_direct(ka: usize, kb: usize)
-{
-    let mut world = World::new();
-    let mut cache = ReactCache::default();
-    let mut ids = [0u8; 6];
-    direct_table(&mut cache, ka, kb, &mut ids);
-    let mut captured: Vec<ReactionCommand> = Vec::with_capacity(4);
-    world.m_capture(&mut captured);
-    world.m_set_cmd_mode(CmdMode::Immediate);
-    let payload: u8 = kani::any();
-    ReactCache::schedule_broadcast_reaction::<EvA>(In(EvA(payload)), Res::m_new(&cache), world.commands());
-    assert!(captured.len() == ka, "exactly one reaction per matching registration");
+    assert!(captured.len() == ka, "C01: exactly one reaction per registration of this event type, none for other types");
     let mut k = 0;
     while k < ka
     {
@@ -226,22 +94,570 @@ fn sched_direct(ka: usize, kb: usize)
         {
             ReactionCommand::BroadcastEvent{ data_entity, reactor } =>
             {
-                assert!(*reactor == SystemCommand(ent(ids[k] as u32)), "listener order = registration order");
-                assert!(*data_entity == ent(0), "all reactions share the data entity");
+                assert!(*reactor == sysc(ids[k]), "C01: listeners are scheduled in registration order, each its own reactor");
+                assert!(*data_entity == ent(0), "C05: all reactions of one event share one data entity");
             }
-            _ => panic!("wrong reaction kind"),
+            _ => panic!("C01: a broadcast schedules BroadcastEvent reactions only"),
         }
         k += 1;
     }
     if ka > 0
     {
+        assert!(world.m_queued() == ka + 1, "C01: nothing else is queued (one spawn + one reaction per listener)");
         let d = ent(0);
-        assert!(crate::react::commands::verif_h::counter_value(world.get::<DataEntityCounter>(d).unwrap()) == ka, "reader count = number of queued reactions");
-        assert!(crate::react::event_readers::verif_h::broadcast_payload(world.get::<BroadcastEventData<EvA>>(d).unwrap()).0 == payload, "payload stored on the data entity");
+        assert!(crate::react::commands::verif_h::counter_value(world.get::<DataEntityCounter>(d).unwrap()) == ka,
+            "C05: reader count = number of queued reactions");
+        assert!(crate::react::event_readers::verif_h::broadcast_payload(world.get::<BroadcastEventData<EvA>>(d).unwrap()).0 == payload,
+            "C03: the payload stored for the readers is the event's own");
     }
-    else { assert!(world.m_queued() == 0 && world.m_nslots == 0, "no listener: nothing queued, no data entity"); }
+    else
+    {
+        assert!(world.m_queued() == 0 && world.m_nslots == 0, "C05: no listener: nothing queued, no data entity, payload dropped at once");
+    }
+    kani::cover!(true, "reached the end");
     std::mem::forget(captured); std::mem::forget(world); std::mem::forget(cache);
 }
-#[kani::proof] #[kani::unwind(5)] fn d_2_1() { sched_direct(2, 1) }
-#[kani::proof] #[kani::unwind(5)] fn d_3_2() { sched_direct(3, 2) }
-#[kani::proof] #[kani::unwind(5)] fn d_0_2() { sched_direct(0, 2) }
+#[kani::proof]
+#[kani::stub(core::any::TypeId::of, crate::vh::stub_typeid_of)]
+#[kani::stub(<core::any::TypeId as crate::vh::PEq>::eq, crate::vh::stub_typeid_eq)]
+#[kani::unwind(4)] fn rc_broadcast_2_1() { broadcast_dispatch(2, 1) }
+#[kani::proof]
+#[kani::stub(core::any::TypeId::of, crate::vh::stub_typeid_of)]
+#[kani::stub(<core::any::TypeId as crate::vh::PEq>::eq, crate::vh::stub_typeid_eq)]
+#[kani::unwind(4)] fn rc_broadcast_0_2() { broadcast_dispatch(0, 2) }
+#[kani::proof]
+#[kani::stub(core::any::TypeId::of, crate::vh::stub_typeid_of)]
+#[kani::stub(<core::any::TypeId as crate::vh::PEq>::eq, crate::vh::stub_typeid_eq)]
+#[kani::unwind(4)] fn rc_broadcast_3_2() { broadcast_dispatch(3, 2) }
+#[kani::proof]
+#[kani::stub(core::any::TypeId::of, crate::vh::stub_typeid_of)]
+#[kani::stub(<core::any::TypeId as crate::vh::PEq>::eq, crate::vh::stub_typeid_eq)]
+#[kani::unwind(4)] fn rc_broadcast_1_0() { broadcast_dispatch(1, 0) }
+#[kani::proof]
+#[kani::stub(core::any::TypeId::of, crate::vh::stub_typeid_of)]
+#[kani::stub(<core::any::TypeId as crate::vh::PEq>::eq, crate::vh::stub_typeid_eq)]
+#[kani::unwind(4)] fn rc_broadcast_0_0() { broadcast_dispatch(0, 0) }
+#[kani::proof]
+#[kani::stub(core::any::TypeId::of, crate::vh::stub_typeid_of)]
+#[kani::stub(<core::any::TypeId as crate::vh::PEq>::eq, crate::vh::stub_typeid_eq)]
+#[kani::unwind(4)]
+fn rc_broadcast_witness() { broadcast_dispatch(2, 1); assert!(false, "witness: end of harness reachable"); }
+
+//-------------------------------------------------------------------------------------------------------------------
+// resource mutation (C01)
+//-------------------------------------------------------------------------------------------------------------------
+
+fn resource_dispatch(ka: usize, kb: usize)
+{
+    let mut world = World::new();
+    let mut cache = ReactCache::default();
+    let mut ids = [0u8; 8];
+    let a = opt_list(TypeId::of::<RsA>(), ka, &mut ids, 0);
+    let b = opt_list(TypeId::of::<RsB>(), kb, &mut ids, 4);
+    put2(&mut cache.resource_reactors, a, b);
+    // a broadcast listener on the "same" position must not be confused with a resource listener
+    let c = opt_list(TypeId::of::<RsA>(), 1, &mut ids, 7);
+    put2(&mut cache.broadcast_reactors, c, None);
+    let mut captured: Vec<ReactionCommand> = Vec::with_capacity(4);
+    capture_start(&mut world, &mut captured);
+    let wp = &mut world as *mut World;
+
+    ReactCache::schedule_resource_mutation_reaction::<RsA>(Res::m_new(&cache), cmds(wp));
+
+    assert!(captured.len() == ka, "C01: one reaction per registration of this resource type");
+    assert!(world.m_queued() == ka, "C01: nothing else is queued");
+    let mut k = 0;
+    while k < ka
+    {
+        match &captured[k]
+        {
+            ReactionCommand::Resource{ reactor } => assert!(*reactor == sysc(ids[k]), "C01: registration order, right reactor"),
+            _ => panic!("C01: a resource mutation schedules Resource reactions only"),
+        }
+        k += 1;
+    }
+    kani::cover!(true, "reached the end");
+    std::mem::forget(captured); std::mem::forget(world); std::mem::forget(cache);
+}
+#[kani::proof]
+#[kani::stub(core::any::TypeId::of, crate::vh::stub_typeid_of)]
+#[kani::stub(<core::any::TypeId as crate::vh::PEq>::eq, crate::vh::stub_typeid_eq)]
+#[kani::unwind(4)] fn rc_resource_2_1() { resource_dispatch(2, 1) }
+#[kani::proof]
+#[kani::stub(core::any::TypeId::of, crate::vh::stub_typeid_of)]
+#[kani::stub(<core::any::TypeId as crate::vh::PEq>::eq, crate::vh::stub_typeid_eq)]
+#[kani::unwind(4)] fn rc_resource_0_1() { resource_dispatch(0, 1) }
+#[kani::proof]
+#[kani::stub(core::any::TypeId::of, crate::vh::stub_typeid_of)]
+#[kani::stub(<core::any::TypeId as crate::vh::PEq>::eq, crate::vh::stub_typeid_eq)]
+#[kani::unwind(4)] fn rc_resource_3_0() { resource_dispatch(3, 0) }
+
+//-------------------------------------------------------------------------------------------------------------------
+// entity event (C01, C05, C18)
+//-------------------------------------------------------------------------------------------------------------------
+
+/// `ne` entity-scoped listeners for EvA on the target (interleaved with a listener for EvB and a mutation reactor),
+/// `ka` type-wide listeners for EvA, `kb` for EvB; the target is alive or (symbolically) despawned.
+fn entity_event_dispatch(ne: usize, ka: usize, kb: usize, may_be_dead: bool) { entity_event_dispatch_x(ne, ka, kb, may_be_dead, true, true) }
+fn entity_event_dispatch_x(ne: usize, ka: usize, kb: usize, may_be_dead: bool, with_other: bool, with_table: bool)
+{
+    let mut world = World::new();
+    let mut cache = ReactCache::default();
+    let mut ids = [0u8; 8];
+    let ev_a = EntityReactionType::Event(TypeId::of::<EvA>());
+    let ev_b = EntityReactionType::Event(TypeId::of::<EvB>());
+    let mu_a = EntityReactionType::Mutation(TypeId::of::<EvA>());
+    let table = match ne
+    {
+        0 => entity_table(&[ev_b, mu_a], &mut ids, 0),
+        1 => entity_table(&[ev_b, ev_a, mu_a], &mut ids, 0),
+        _ => entity_table(&[ev_a, ev_b, mu_a, ev_a], &mut ids, 0),
+    };
+    // positions of the EvA entries in the entity table
+    let epos: [usize; 2] = match ne { 0 => [9, 9], 1 => [1, 9], _ => [0, 3] };
+    let target = if with_table { world.spawn(table).id() } else { std::mem::forget(table); world.spawn_empty().id() };
+    if with_other { let _ = world.spawn(entity_table(&[ev_a], &mut ids, 7)).id(); }     // another entity's listener must not run
+    let a = opt_list(TypeId::of::<EvA>(), ka, &mut ids, 4);
+    let b = opt_list(TypeId::of::<EvB>(), kb, &mut ids, 6);
+    put2(&mut cache.any_entity_event_reactors, a, b);
+
+    let dead: bool = if may_be_dead { kani::any() } else { false };
+    if dead
+    {
+        world.m_drop_table::<(EntityReactors,)>();
+        world.despawn(target);
+    }
+    let mut captured: Vec<ReactionCommand> = Vec::with_capacity(6);
+    capture_start(&mut world, &mut captured);
+    let wp = &mut world as *mut World;
+
+    let payload: u8 = kani::any();
+    ReactCache::schedule_entity_event_reaction::<EvA>(In((target, EvA(payload))), cmds(wp), Res::m_new(&cache), qry(wp));
+
+    let ne_eff = if dead { 0 } else { ne };
+    let total = ne_eff + ka;
+    assert!(captured.len() == total, "C01: entity-scoped listeners of the target for this event type plus type-wide listeners, nothing else");
+    let mut k = 0;
+    while k < total
+    {
+        match &captured[k]
+        {
+            ReactionCommand::EntityEvent{ target: t, data_entity, reactor } =>
+            {
+                assert!(*t == target, "C03: every reaction carries the event's target");
+                let want = if k < ne_eff { ids[epos[k]] } else { ids[4 + (k - ne_eff)] };
+                assert!(*reactor == sysc(want), "C01: entity-scoped listeners first, then type-wide, each in registration order");
+                if k > 0 { if let ReactionCommand::EntityEvent{ data_entity: d0, .. } = &captured[0] { assert!(*d0 == *data_entity, "C05: one shared data entity"); } }
+            }
+            _ => panic!("C01: an entity event schedules EntityEvent reactions only"),
+        }
+        k += 1;
+    }
+    if total > 0
+    {
+        assert!(world.m_queued() == total + 1, "C01: nothing else is queued");
+        if let ReactionCommand::EntityEvent{ data_entity, .. } = &captured[0]
+        {
+            assert!(crate::react::commands::verif_h::counter_value(world.get::<DataEntityCounter>(*data_entity).unwrap()) == total,
+                "C05: reader count = number of queued reactions");
+            let (t, p) = crate::react::event_readers::verif_h::entity_event_payload(world.get::<EntityEventData<EvA>>(*data_entity).unwrap());
+            assert!(t == target && p.0 == payload, "C03: target and payload stored for the readers are the event's own");
+        }
+    }
+    else
+    {
+        assert!(world.m_queued() == 0, "C05: no listener: nothing queued, payload dropped at once");
+    }
+    kani::cover!(dead || !may_be_dead, "target despawned before the event is applied");
+    kani::cover!(!dead, "target alive");
+    std::mem::forget(captured); std::mem::forget(world); std::mem::forget(cache);
+}
+#[kani::proof]
+#[kani::stub(core::any::TypeId::of, crate::vh::stub_typeid_of)]
+#[kani::stub(<core::any::TypeId as crate::vh::PEq>::eq, crate::vh::stub_typeid_eq)]
+#[kani::unwind(5)] fn rc_entity_event_2_1_1() { entity_event_dispatch(2, 1, 1, false) }
+#[kani::proof]
+#[kani::stub(core::any::TypeId::of, crate::vh::stub_typeid_of)]
+#[kani::stub(<core::any::TypeId as crate::vh::PEq>::eq, crate::vh::stub_typeid_eq)]
+#[kani::unwind(5)] fn rc_entity_event_1_0_1() { entity_event_dispatch(1, 0, 1, false) }
+#[kani::proof]
+#[kani::stub(core::any::TypeId::of, crate::vh::stub_typeid_of)]
+#[kani::stub(<core::any::TypeId as crate::vh::PEq>::eq, crate::vh::stub_typeid_eq)]
+#[kani::unwind(5)] fn rc_entity_event_0_2_0() { entity_event_dispatch(0, 2, 0, false) }
+#[kani::proof]
+#[kani::stub(core::any::TypeId::of, crate::vh::stub_typeid_of)]
+#[kani::stub(<core::any::TypeId as crate::vh::PEq>::eq, crate::vh::stub_typeid_eq)]
+#[kani::unwind(5)] fn rc_entity_event_0_0_1() { entity_event_dispatch(0, 0, 1, false) }
+#[kani::proof]
+#[kani::stub(core::any::TypeId::of, crate::vh::stub_typeid_of)]
+#[kani::stub(<core::any::TypeId as crate::vh::PEq>::eq, crate::vh::stub_typeid_eq)]
+#[kani::unwind(5)] fn rc_entity_event_dead_2_0_1() { entity_event_dispatch(2, 0, 1, true) }
+
+//-------------------------------------------------------------------------------------------------------------------
+// insertion / mutation (C01)
+//-------------------------------------------------------------------------------------------------------------------
+
+/// `which`: 0 = insertion, 1 = mutation.  The target carries entity-scoped reactors of all three component kinds for
+/// CoA and CoB; the type-wide table has insertion / mutation / removal lists for CoA and one entry for CoB.
+fn component_dispatch(which: u8, ne: usize, ki: usize, km: usize, kr: usize)
+{
+    let mut world = World::new();
+    let mut cache = ReactCache::default();
+    let mut ids = [0u8; 8];
+    let ins_a = EntityReactionType::Insertion(TypeId::of::<CoA>());
+    let mut_a = EntityReactionType::Mutation(TypeId::of::<CoA>());
+    let rem_a = EntityReactionType::Removal(TypeId::of::<CoA>());
+    let ins_b = EntityReactionType::Insertion(TypeId::of::<CoB>());
+    let mut_b = EntityReactionType::Mutation(TypeId::of::<CoB>());
+    let wanted = if which == 0 { ins_a } else { mut_a };
+    let unwanted = if which == 0 { mut_a } else { ins_a };
+    let wanted_b = if which == 0 { ins_b } else { mut_b };
+    let table = match ne
+    {
+        0 => entity_table(&[unwanted, rem_a, wanted_b], &mut ids, 0),
+        1 => entity_table(&[unwanted, wanted, wanted_b], &mut ids, 0),
+        _ => entity_table(&[wanted, wanted_b, unwanted, wanted], &mut ids, 0),
+    };
+    let epos: [usize; 2] = match ne { 0 => [9, 9], 1 => [1, 9], _ => [0, 3] };
+    let target = world.spawn(table).id();
+    let cr_a = ComponentReactors{
+        insertion_callbacks: handle_list(ki, &mut ids, 4),
+        mutation_callbacks: handle_list(km, &mut ids, 4 + ki),
+        removal_callbacks: handle_list(kr, &mut ids, 4 + ki + km),
+    };
+    let cr_b = ComponentReactors{
+        insertion_callbacks: handle_list(1, &mut ids, 7),
+        mutation_callbacks: handle_list(1, &mut ids, 7),
+        removal_callbacks: Vec::new(),
+    };
+    put2(&mut cache.component_reactors, Some((TypeId::of::<CoB>(), cr_b)), Some((TypeId::of::<CoA>(), cr_a)));
+    let mut captured: Vec<ReactionCommand> = Vec::with_capacity(6);
+    capture_start(&mut world, &mut captured);
+    let wp = &mut world as *mut World;
+
+    if which == 0
+    {
+        ReactCache::schedule_insertion_reaction::<CoA>(In(target), ResMut::m_new(&mut cache), cmds(wp), qry(wp));
+    }
+    else
+    {
+        ReactCache::schedule_mutation_reaction::<CoA>(In(target), ResMut::m_new(&mut cache), cmds(wp), qry(wp));
+    }
+
+    let kw = if which == 0 { ki } else { km };
+    let woff = if which == 0 { 4 } else { 4 + ki };
+    let total = ne + kw;
+    assert!(captured.len() == total, "C01: entity-scoped reactors of this kind and component on the target plus type-wide ones of this kind, nothing else");
+    assert!(world.m_queued() == total, "C01: nothing else is queued");
+    let mut k = 0;
+    while k < total
+    {
+        match &captured[k]
+        {
+            ReactionCommand::EntityReaction{ reaction_source, reaction_type, reactor } =>
+            {
+                assert!(*reaction_source == target, "C03: the reaction names the entity the component is on");
+                assert!(*reaction_type == wanted, "C03: the reaction names the right kind and component type");
+                let want = if k < ne { ids[epos[k]] } else { ids[woff + (k - ne)] };
+                assert!(*reactor == sysc(want), "C01: entity-scoped first, then type-wide, each in registration order; the right list (insertion vs mutation vs removal)");
+            }
+            _ => panic!("C01: a component insertion/mutation schedules EntityReaction reactions only"),
+        }
+        k += 1;
+    }
+    assert!(cache.reaction_commands_buffer.len() == 0, "C11: the cached reaction buffer is left empty");
+    kani::cover!(true, "reached the end");
+    std::mem::forget(captured); std::mem::forget(world); std::mem::forget(cache);
+}
+#[kani::proof]
+#[kani::stub(core::any::TypeId::of, crate::vh::stub_typeid_of)]
+#[kani::stub(<core::any::TypeId as crate::vh::PEq>::eq, crate::vh::stub_typeid_eq)]
+#[kani::unwind(5)] fn rc_insertion_2_1_1_1() { component_dispatch(0, 2, 1, 1, 1) }
+#[kani::proof]
+#[kani::stub(core::any::TypeId::of, crate::vh::stub_typeid_of)]
+#[kani::stub(<core::any::TypeId as crate::vh::PEq>::eq, crate::vh::stub_typeid_eq)]
+#[kani::unwind(5)] fn rc_mutation_2_1_1_1() { component_dispatch(1, 2, 1, 1, 1) }
+#[kani::proof]
+#[kani::stub(core::any::TypeId::of, crate::vh::stub_typeid_of)]
+#[kani::stub(<core::any::TypeId as crate::vh::PEq>::eq, crate::vh::stub_typeid_eq)]
+#[kani::unwind(5)] fn rc_insertion_1_2_0_1() { component_dispatch(0, 1, 2, 0, 1) }
+#[kani::proof]
+#[kani::stub(core::any::TypeId::of, crate::vh::stub_typeid_of)]
+#[kani::stub(<core::any::TypeId as crate::vh::PEq>::eq, crate::vh::stub_typeid_eq)]
+#[kani::unwind(5)] fn rc_mutation_0_0_2_1() { component_dispatch(1, 0, 0, 2, 1) }
+#[kani::proof]
+#[kani::stub(core::any::TypeId::of, crate::vh::stub_typeid_of)]
+#[kani::stub(<core::any::TypeId as crate::vh::PEq>::eq, crate::vh::stub_typeid_eq)]
+#[kani::unwind(5)] fn rc_insertion_0_0_1_1() { component_dispatch(0, 0, 0, 1, 1) }
+
+
+//-------------------------------------------------------------------------------------------------------------------
+// revocation kernels (C06, C07, C01)
+//-------------------------------------------------------------------------------------------------------------------
+
+/// shadow of "remove the first entry of `id`": returns the expected list and its length
+fn shadow_remove_first(ids: &[u8; 8], off: usize, k: usize, id: u8, out: &mut [u8; 4]) -> usize
+{
+    let mut n = 0; let mut removed = false; let mut i = 0;
+    while i < k
+    {
+        if !removed && ids[off + i] == id { removed = true; } else { out[n] = ids[off + i]; n += 1; }
+        i += 1;
+    }
+    n
+}
+
+fn list_is(list: &Vec<ReactorHandle>, want: &[u8; 4], n: usize) -> bool
+{
+    if list.len() != n { return false; }
+    let mut i = 0;
+    while i < n { if list[i].sys_command() != sysc(want[i]) { return false; } i += 1; }
+    true
+}
+
+fn count_id(ids: &[u8; 8], off: usize, k: usize, id: u8) -> usize
+{
+    let mut c = 0; let mut i = 0;
+    while i < k { if ids[off + i] == id { c += 1; } i += 1; }
+    c
+}
+
+/// which: 0 broadcast, 1 resource, 2 any-entity-event.  Table: key A with `ka` entries, key B with `kb`.
+fn revoke_list_kernel(which: u8, ka: usize, kb: usize, absent_key: bool)
+{
+    let mut cache = ReactCache::default();
+    let mut ids = [0u8; 8];
+    let a = opt_list(TypeId::of::<EvA>(), ka, &mut ids, 0);
+    let b = opt_list(TypeId::of::<EvB>(), kb, &mut ids, 4);
+    match which
+    {
+        0 => put2(&mut cache.broadcast_reactors, a, b),
+        1 => put2(&mut cache.resource_reactors, a, b),
+        _ => put2(&mut cache.any_entity_event_reactors, a, b),
+    }
+    let target = any_below(NSYS);
+    let key = if absent_key { TypeId::of::<CoA>() } else { TypeId::of::<EvA>() };
+
+    match which
+    {
+        0 => cache.revoke_broadcast_reactor(key, sysc(target)),
+        1 => cache.revoke_resource_mutation_reactor(key, sysc(target)),
+        _ => cache.revoke_any_entity_event_reactor(key, sysc(target)),
+    }
+
+    let table = match which { 0 => &cache.broadcast_reactors, 1 => &cache.resource_reactors, _ => &cache.any_entity_event_reactors };
+    let mut want = [0u8; 4];
+    let n = if absent_key { let mut i = 0; while i < ka { want[i] = ids[i]; i += 1; } ka } else { shadow_remove_first(&ids, 0, ka, target, &mut want) };
+    match table.get(&TypeId::of::<EvA>())
+    {
+        Some(list) => { assert!(n > 0, "C06: a key whose list became empty is dropped"); assert!(list_is(list, &want, n), "C06: exactly the first entry of the revoked reactor is removed; neighbours keep their order"); }
+        None => assert!(n == 0, "C06: revoking must not delete registrations of other reactors under the key"),
+    }
+    match table.get(&TypeId::of::<EvB>())
+    {
+        Some(list) => assert!(kb > 0 && list.len() == kb && list[0].sys_command() == sysc(ids[4]), "C06: other keys are untouched"),
+        None => assert!(kb == 0, "C06: other keys are untouched"),
+    }
+    kani::cover!(n < ka, "an entry was revoked");
+    kani::cover!(n == ka, "absent reactor or key: no-op");
+    std::mem::forget(cache);
+}
+#[kani::proof]
+#[kani::stub(core::any::TypeId::of, crate::vh::stub_typeid_of)]
+#[kani::stub(<core::any::TypeId as crate::vh::PEq>::eq, crate::vh::stub_typeid_eq)]
+#[kani::unwind(4)] fn rc_revoke_broadcast_3_1() { revoke_list_kernel(0, 3, 1, false) }
+#[kani::proof]
+#[kani::stub(core::any::TypeId::of, crate::vh::stub_typeid_of)]
+#[kani::stub(<core::any::TypeId as crate::vh::PEq>::eq, crate::vh::stub_typeid_eq)]
+#[kani::unwind(3)] fn rc_revoke_broadcast_2_1() { revoke_list_kernel(0, 2, 1, false) }
+#[kani::proof]
+#[kani::stub(core::any::TypeId::of, crate::vh::stub_typeid_of)]
+#[kani::stub(<core::any::TypeId as crate::vh::PEq>::eq, crate::vh::stub_typeid_eq)]
+#[kani::unwind(3)] fn rc_revoke_resource_2_1() { revoke_list_kernel(1, 2, 1, false) }
+#[kani::proof]
+#[kani::stub(core::any::TypeId::of, crate::vh::stub_typeid_of)]
+#[kani::stub(<core::any::TypeId as crate::vh::PEq>::eq, crate::vh::stub_typeid_eq)]
+#[kani::unwind(3)] fn rc_revoke_any_event_2_1() { revoke_list_kernel(2, 2, 1, false) }
+#[kani::proof]
+#[kani::stub(core::any::TypeId::of, crate::vh::stub_typeid_of)]
+#[kani::stub(<core::any::TypeId as crate::vh::PEq>::eq, crate::vh::stub_typeid_eq)]
+#[kani::unwind(3)] fn rc_revoke_broadcast_absent_key() { revoke_list_kernel(0, 2, 0, true) }
+
+/// Completeness as the property words it: after the revoke no entry of the reactor remains under the key.
+/// With duplicate registrations of one trigger by one reactor this FAILS (finding F2): the type-wide tables remove
+/// only the first match.
+fn revoke_complete_kernel(ka: usize)
+{
+    let mut cache = ReactCache::default();
+    let mut ids = [0u8; 8];
+    let a = opt_list(TypeId::of::<EvA>(), ka, &mut ids, 0);
+    put2(&mut cache.broadcast_reactors, a, None);
+    let target = any_below(NSYS);
+    let before = count_id(&ids, 0, ka, target);
+    cache.revoke_broadcast_reactor(TypeId::of::<EvA>(), sysc(target));
+    let mut remaining = 0;
+    if let Some(list) = cache.broadcast_reactors.get(&TypeId::of::<EvA>())
+    {
+        let mut i = 0;
+        while i < list.len() { if list[i].sys_command() == sysc(target) { remaining += 1; } i += 1; }
+    }
+    if before <= 1 { assert!(remaining == 0, "C06: after a revoke no registration of the reactor remains under the key"); }
+    else { assert!(remaining == 0, "C06/F2: a reactor registered twice for one type-wide trigger is still registered after one revoke"); }
+    kani::cover!(before == 1, "single registration");
+    std::mem::forget(cache);
+}
+#[kani::proof]
+#[kani::stub(core::any::TypeId::of, crate::vh::stub_typeid_of)]
+#[kani::stub(<core::any::TypeId as crate::vh::PEq>::eq, crate::vh::stub_typeid_eq)]
+#[kani::unwind(4)] fn rc_revoke_complete_3() { revoke_complete_kernel(3) }
+
+/// component reactors: three sibling lists under one key; the map entry must survive while any list is non-empty
+fn revoke_component_kernel(ki: usize, km: usize, kr: usize)
+{
+    let mut cache = ReactCache::default();
+    let mut ids = [0u8; 8];
+    let cr_a = ComponentReactors{
+        insertion_callbacks: handle_list(ki, &mut ids, 0),
+        mutation_callbacks: handle_list(km, &mut ids, 2),
+        removal_callbacks: handle_list(kr, &mut ids, 4),
+    };
+    let cr_b = ComponentReactors{ insertion_callbacks: handle_list(1, &mut ids, 6), mutation_callbacks: Vec::new(), removal_callbacks: Vec::new() };
+    put2(&mut cache.component_reactors, Some((TypeId::of::<CoA>(), cr_a)), Some((TypeId::of::<CoB>(), cr_b)));
+    let target = any_below(NSYS);
+    let kind = any_below(3);
+    let rtype = match kind { 0 => EntityReactionType::Insertion(TypeId::of::<CoA>()), 1 => EntityReactionType::Mutation(TypeId::of::<CoA>()), _ => EntityReactionType::Removal(TypeId::of::<CoA>()) };
+
+    cache.revoke_component_reactor(rtype, sysc(target));
+
+    let mut wi = [0u8; 4]; let mut wm = [0u8; 4]; let mut wr = [0u8; 4];
+    let ni = if kind == 0 { shadow_remove_first(&ids, 0, ki, target, &mut wi) } else { let mut i = 0; while i < ki { wi[i] = ids[i]; i += 1; } ki };
+    let nm = if kind == 1 { shadow_remove_first(&ids, 2, km, target, &mut wm) } else { let mut i = 0; while i < km { wm[i] = ids[2 + i]; i += 1; } km };
+    let nr = if kind == 2 { shadow_remove_first(&ids, 4, kr, target, &mut wr) } else { let mut i = 0; while i < kr { wr[i] = ids[4 + i]; i += 1; } kr };
+    match cache.component_reactors.get(&TypeId::of::<CoA>())
+    {
+        Some(cr) =>
+        {
+            assert!(ni + nm + nr > 0, "C06: an entry whose three lists are empty is dropped");
+            assert!(list_is(&cr.insertion_callbacks, &wi, ni), "C06: insertion list: only the addressed list loses (at most) the revoked reactor's first entry");
+            assert!(list_is(&cr.mutation_callbacks, &wm, nm), "C06: mutation list: only the addressed list loses (at most) the revoked reactor's first entry");
+            assert!(list_is(&cr.removal_callbacks, &wr, nr), "C06: removal list: only the addressed list loses (at most) the revoked reactor's first entry");
+        }
+        None => assert!(ni + nm + nr == 0, "C06/C01: revoking one kind must not delete the component's other reactor lists"),
+    }
+    match cache.component_reactors.get(&TypeId::of::<CoB>())
+    {
+        Some(cr) => assert!(cr.insertion_callbacks.len() == 1 && cr.removal_callbacks.len() == 0 && cr.mutation_callbacks.len() == 0, "C06: other components untouched"),
+        None => panic!("C06: other components untouched"),
+    }
+    kani::cover!(!(ki == 1 && km + kr > 0) || (kind == 0 && ni == 0), "last insertion reactor revoked while sibling lists are non-empty (where the shape allows it)");
+    kani::cover!(ki + km + kr != 1 || ni + nm + nr == 0, "entry emptied completely (where the shape allows it)");
+    std::mem::forget(cache);
+}
+#[kani::proof]
+#[kani::stub(core::any::TypeId::of, crate::vh::stub_typeid_of)]
+#[kani::stub(<core::any::TypeId as crate::vh::PEq>::eq, crate::vh::stub_typeid_eq)]
+#[kani::unwind(3)] fn rc_revoke_component_1_1_1() { revoke_component_kernel(1, 1, 1) }
+#[kani::proof]
+#[kani::stub(core::any::TypeId::of, crate::vh::stub_typeid_of)]
+#[kani::stub(<core::any::TypeId as crate::vh::PEq>::eq, crate::vh::stub_typeid_eq)]
+#[kani::unwind(3)] fn rc_revoke_component_1_0_0() { revoke_component_kernel(1, 0, 0) }
+#[kani::proof]
+#[kani::stub(core::any::TypeId::of, crate::vh::stub_typeid_of)]
+#[kani::stub(<core::any::TypeId as crate::vh::PEq>::eq, crate::vh::stub_typeid_eq)]
+#[kani::unwind(3)] fn rc_revoke_component_1_0_1() { revoke_component_kernel(1, 0, 1) }
+#[kani::proof]
+#[kani::stub(core::any::TypeId::of, crate::vh::stub_typeid_of)]
+#[kani::stub(<core::any::TypeId as crate::vh::PEq>::eq, crate::vh::stub_typeid_eq)]
+#[kani::unwind(3)] fn rc_revoke_component_0_1_1() { revoke_component_kernel(0, 1, 1) }
+
+/// despawn reactors are keyed by entity
+fn revoke_despawn_kernel(ka: usize, kb: usize)
+{
+    let mut cache = ReactCache::default();
+    let mut ids = [0u8; 8];
+    let ea = ent(1); let eb = ent(2);
+    let a = opt_list(ea, ka, &mut ids, 0);
+    let b = opt_list(eb, kb, &mut ids, 4);
+    put2(&mut cache.despawn_reactors, a, b);
+    let target = any_below(NSYS);
+    let which: u8 = any_below(3);
+    let key = match which { 0 => ea, 1 => eb, _ => Entity::m_new(1, 2) };   // a stale id of ea's index must not alias
+    cache.revoke_despawn_reactor(key, sysc(target));
+    let mut wa = [0u8; 4]; let mut wb = [0u8; 4];
+    let na = if which == 0 { shadow_remove_first(&ids, 0, ka, target, &mut wa) } else { let mut i = 0; while i < ka { wa[i] = ids[i]; i += 1; } ka };
+    let nb = if which == 1 { shadow_remove_first(&ids, 4, kb, target, &mut wb) } else { let mut i = 0; while i < kb { wb[i] = ids[4 + i]; i += 1; } kb };
+    match cache.despawn_reactors.get(&ea) { Some(l) => assert!(na > 0 && list_is(l, &wa, na), "C06: despawn list of the named entity"), None => assert!(na == 0, "C06: despawn list of the named entity") }
+    match cache.despawn_reactors.get(&eb) { Some(l) => assert!(nb > 0 && list_is(l, &wb, nb), "C06: despawn lists of other entities untouched"), None => assert!(nb == 0, "C06: despawn lists of other entities untouched") }
+    kani::cover!(which == 2, "stale id");
+    std::mem::forget(cache);
+}
+#[kani::proof]
+#[kani::stub(core::any::TypeId::of, crate::vh::stub_typeid_of)]
+#[kani::stub(<core::any::TypeId as crate::vh::PEq>::eq, crate::vh::stub_typeid_eq)]
+#[kani::unwind(3)] fn rc_revoke_despawn_2_1() { revoke_despawn_kernel(2, 1) }
+
+//-------------------------------------------------------------------------------------------------------------------
+// introspection for harnesses of sibling modules
+//-------------------------------------------------------------------------------------------------------------------
+pub fn despawn_entries(cache: &ReactCache, e: Entity) -> usize { cache.despawn_reactors.get(&e).map(|l| l.len()).unwrap_or(0) }
+pub fn pending_despawn_reports(cache: &ReactCache) -> usize { cache.despawn_receiver.len() }
+pub fn broadcast_entries<E: 'static>(cache: &ReactCache) -> usize { cache.broadcast_reactors.get(&TypeId::of::<E>()).map(|l| l.len()).unwrap_or(0) }
+pub fn broadcast_first<E: 'static>(cache: &ReactCache) -> Option<SystemCommand> { cache.broadcast_reactors.get(&TypeId::of::<E>()).and_then(|l| l.first().map(|h| h.sys_command())) }
+pub fn put_broadcast<E: 'static>(cache: &mut ReactCache, a: ReactorHandle, b: ReactorHandle)
+{
+    let mut v: Vec<ReactorHandle> = Vec::with_capacity(4);
+    v.push(a); v.push(b);
+    put2(&mut cache.broadcast_reactors, Some((TypeId::of::<E>(), v)), None);
+}
+
+/// C08 / C07: `schedule_despawn_reactions` turns each reported entity into one Despawn reaction per stored handle,
+/// MOVING the handle into the reaction (the map entry is consumed, so a repeated report yields nothing).
+fn rc_despawn_dispatch_k(twice: bool)
+{
+    let mut world = World::new();
+    let mut cache = ReactCache::default();
+    let mut ids = [0u8; 8];
+    let ea = ent(1); let eb = ent(2);
+    let a = opt_list(ea, 1, &mut ids, 0);
+    let b = opt_list(eb, 1, &mut ids, 4);
+    put2(&mut cache.despawn_reactors, a, b);
+    let sender = cache.despawn_sender();
+    let _ = sender.send(ea);
+    if twice { let _ = sender.send(ea); }
+    let _ = sender.send(ent(3));                 // an entity nobody watches
+    let mut captured: Vec<ReactionCommand> = Vec::with_capacity(4);
+    capture_start(&mut world, &mut captured);
+
+    cache.schedule_despawn_reactions(&mut world);
+
+    assert!(captured.len() == 1, "C08: one reaction per reactor watching the despawned entity, at most once per entity");
+    let mut k = 0;
+    while k < 1
+    {
+        match &captured[k]
+        {
+            ReactionCommand::Despawn{ reaction_source, reactor, handle } =>
+            {
+                assert!(*reaction_source == ea, "C03: the reaction names the despawned entity");
+                assert!(*reactor == sysc(ids[k]) && handle.sys_command() == sysc(ids[k]), "C08: registration order; the handle travels with its reaction");
+            }
+            _ => panic!("C08: despawns schedule Despawn reactions only"),
+        }
+        k += 1;
+    }
+    assert!(cache.despawn_reactors.get(&ea).is_none(), "C08: the entry is consumed");
+    assert!(cache.despawn_reactors.get(&eb).map(|l| l.len()) == Some(1), "C08: entities that were not reported keep their reactors");
+    assert!(cache.despawn_receiver.len() == 0, "C11: the report channel is drained");
+    kani::cover!(true, "end reached");
+    std::mem::forget(captured); std::mem::forget(world); std::mem::forget(cache);
+}
+#[kani::proof]
+#[kani::stub(core::any::TypeId::of, crate::vh::stub_typeid_of)]
+#[kani::stub(<core::any::TypeId as crate::vh::PEq>::eq, crate::vh::stub_typeid_eq)]
+#[kani::unwind(4)]
+fn rc_despawn_dispatch_once() { rc_despawn_dispatch_k(false) }
+#[kani::proof]
+#[kani::stub(core::any::TypeId::of, crate::vh::stub_typeid_of)]
+#[kani::stub(<core::any::TypeId as crate::vh::PEq>::eq, crate::vh::stub_typeid_eq)]
+#[kani::unwind(4)]
+fn rc_despawn_dispatch_reported_twice() { rc_despawn_dispatch_k(true) }
